@@ -70,6 +70,7 @@ type crash struct {
 	fp     string // fingerprint suffix: <site>/<kind>[@leaf]
 	fatal  bool
 	stack  string
+	site   string // the site-based fingerprint when fp was regrouped
 }
 
 var (
@@ -309,14 +310,62 @@ func (p *probe) report(t stats.TB, fp, msg string, more map[string]any) bool {
 	return stats.Violation(t, p.part, fp, msg, p.dump(more))
 }
 
-// lastCrash is the crash seen by the most recent run (nil if none); for regress tests.
+// stepAs is step for a statement transcribed from a production function into the harness: when
+// the panic is raised by the transcribed statement itself (no go-quai frame below the harness) it
+// is attributed to the production function named by fp.
+func stepAs(fp string, f func()) {
+	defer func() {
+		if r := recover(); r != nil {
+			c := analyse(r, debug.Stack())
+			if strings.HasPrefix(c.fp, "harness/") {
+				c.fp = fp + "/" + c.kind
+			}
+			stepCrashes = append(stepCrashes, c)
+		}
+	}()
+	f()
+}
+
+// lastCrash is the (first) crash seen by the most recent run (nil if none).
 var lastCrash *crash
+
+// stepCrashes collects the crashes of the independent post-decode steps of the current run.
+var stepCrashes []*crash
+
+// stepGroup, when set, names the root cause every crash of the following steps is attributed to
+// (used where the harness knows why the object is incomplete, e.g. a decoder that accepted a
+// document without its required members: one root cause, many accessor sites).
+var stepGroup string
+
+// step runs one independent post-decode action; a panic in it is recorded and the remaining
+// steps still run, so that one (possibly known) crash does not hide the others.
+func step(f func()) {
+	defer func() {
+		if r := recover(); r != nil {
+			c := analyse(r, debug.Stack())
+			if stepGroup != "" && !strings.HasPrefix(c.fp, "harness/") {
+				c.site, c.fp = c.fp, stepGroup
+			}
+			stepCrashes = append(stepCrashes, c)
+		}
+	}()
+	f()
+}
+
+// grouped runs f with stepGroup set.
+func grouped(group string, f func()) {
+	prev := stepGroup
+	stepGroup = group
+	defer func() { stepGroup = prev }()
+	f()
+}
 
 // run executes f under the oracle. It returns false when f crashed or broke a bound (and the
 // finding is a known one; otherwise the test has already been failed).
 func (p *probe) run(t stats.TB, f func()) (ok bool) {
 	t.Helper()
 	lastCrash = nil
+	stepCrashes = stepCrashes[:0]
 	g0 := 0
 	if !p.noGoroutineCheck {
 		g0 = runtime.NumGoroutine()
@@ -334,9 +383,20 @@ func (p *probe) run(t stats.TB, f func()) (ok bool) {
 	}()
 	runtime.ReadMemStats(&m1)
 	ok = true
+	crashes := append([]*crash(nil), stepCrashes...)
 	if cr != nil {
-		lastCrash = cr
+		crashes = append(crashes, cr)
+	}
+	seen := map[string]bool{}
+	for _, cr := range crashes {
+		if lastCrash == nil {
+			lastCrash = cr
+		}
 		ok = false
+		if seen[cr.fp] {
+			continue
+		}
+		seen[cr.fp] = true
 		if strings.HasPrefix(cr.fp, "harness/") {
 			t.Fatalf("HARNESS: panic inside the harness while driving %s: %v\n%s", p.entry, cr.value, cr.stack)
 		}
@@ -347,7 +407,7 @@ func (p *probe) run(t stats.TB, f func()) (ok bool) {
 			what = "logger.Fatal (the node would exit)"
 		}
 		p.report(t, "C15/"+class+"/"+cr.fp, fmt.Sprintf("%s driven with a %d-byte input: %s; at %s", p.entry, len(p.input), what, strings.Join(cr.top(3), " <- ")),
-			map[string]any{"panic": fmt.Sprint(cr.value), "stack": cr.top(14)})
+			map[string]any{"panic": fmt.Sprint(cr.value), "stack": cr.top(14), "site": cr.site})
 	}
 	n := len(p.input)
 	if p.inputLen > 0 {
